@@ -1456,6 +1456,12 @@ public:
         // all memory accesses must satisfy this type.
 
         new_rgn_info.type_val() = variable_type::mk_region(val.get_type());
+        // The ghost variables of rgn are named after its dynamic
+        // type: those it gets now may still describe the contents
+        // rgn had in an earlier life (before it was forgotten,
+        // initialized again or overwritten by a region_copy).
+        m_rgn_env.set(rgn, new_rgn_info);
+        m_ghost_var_man.forget(rgn, m_base_dom);
       } else {
         // 2. Check that type of val satisfy the dynamic type of the
         // region.
@@ -1495,6 +1501,11 @@ public:
             new_rgn_info.init_val() = boolean_value::get_false();
             new_rgn_info.type_val() = variable_type::mk_region(val.get_type());
 
+            m_ghost_var_man.forget(rgn, m_base_dom);
+            // From now on rgn has the ghost variables of a region of
+            // references: val is written there, and what they say
+            // about an earlier life of rgn is forgotten too.
+            m_rgn_env.set(rgn, new_rgn_info);
             m_ghost_var_man.forget(rgn, m_base_dom);
 
             CRAB_LOG("region-store",
